@@ -2,6 +2,12 @@
 """usage: tools/meta.py <PID-mK> <detected:yes|no|partly> <free text on which check/leg reports it>"""
 import json, sys, os
 d = f"/verif/seeded/{sys.argv[1]}"
+if not os.path.exists(f"{d}/agent.json"):      # already recorded: only the verdict is updated
+    meta = json.load(open(f"{d}/meta.json"))
+    meta["detected"], meta["detected_by"] = sys.argv[2], sys.argv[3]
+    json.dump(meta, open(f"{d}/meta.json", "w"), indent=1)
+    print("updated", d)
+    sys.exit(0)
 a = json.load(open(f"{d}/agent.json"))
 pid = sys.argv[1].split("-")[0]
 meta = {
